@@ -129,6 +129,26 @@ func GenCodecFile(r *R, idx int) *ir.File {
 	on.Oneofs = []*ir.Oneof{{Name: "content", HasConfig: true, Discriminator: sp(Pick(r, []string{"type", "kind"})), Flatten: false}}
 	variants(on, true)
 
+	// TWO discriminated oneofs in one message (one flattened, one nested; both orders): each is rewritten on its own,
+	// whatever the state of the other — in particular when one of them is unset and the other is set
+	msg("ViaDoor", fld("porch", "string"), fld("floor", "int32"))
+	msg("ViaRelay", fld("hub", "string"), fld("hops", "int32"))
+	pair := func(name string, firstFlat bool) {
+		m := msg(name, fld("ident", "string"))
+		m.Oneofs = []*ir.Oneof{{Name: "content", HasConfig: true, Discriminator: sp("type"), Flatten: firstFlat}}
+		variants(m, !firstFlat)
+		m.Oneofs = append(m.Oneofs, &ir.Oneof{Name: "origin", HasConfig: true, Discriminator: sp("via"), Flatten: !firstFlat})
+		no := int32(len(m.Fields) + 1)
+		for _, v := range [][2]string{{"door", "ViaDoor"}, {"relay", "ViaRelay"}} {
+			fl := mf(v[0], v[1])
+			fl.Number, fl.Oneof = no, "origin"
+			no++
+			m.Fields = append(m.Fields, fl)
+		}
+	}
+	pair("OneofPairA", true)
+	pair("OneofPairB", false)
+
 	// unwrap wrappers, container, combined root
 	msg("BarList", &ir.Field{Name: "bars", Kind: "message", TypeName: P + "Spot", Card: "repeated", Ann: ir.Ann{Unwrap: true}})
 	scalarKind := Pick(r, []string{"int64", "string", "int32", "double", "uint32", "bool"})
@@ -177,7 +197,7 @@ func GenCodecFile(r *R, idx int) *ir.File {
 		ann(mf("meta_omit", "Spot"), ir.Ann{EmptyBehavior: "OMIT"}), fld("plain_s", "string"))
 
 	svc := &ir.Service{Name: "CodecService", BasePath: "/api"}
-	tops := []string{"FlattenTwo", "FlattenRich", "OneofFlat", "OneofNest", "UnwrapCont", "UnwrapRoot", "TsAll", "BytesAll", "Int64All", "NullableAll", "EmptyAll"}
+	tops := []string{"FlattenTwo", "FlattenRich", "OneofFlat", "OneofNest", "OneofPairA", "OneofPairB", "UnwrapCont", "UnwrapRoot", "TsAll", "BytesAll", "Int64All", "NullableAll", "EmptyAll"}
 	for i, t := range tops {
 		svc.Methods = append(svc.Methods, &ir.Method{Name: fmt.Sprintf("Call%d", i), Input: P + t, Output: P + tops[(i+1)%len(tops)],
 			Config: &ir.HTTPConfig{Path: fmt.Sprintf("/call%d", i), Method: "POST"}})
